@@ -134,4 +134,30 @@ PROPS["C05F"] = {
         "fold half of C05 only (plus the fold halves of C12 and C14); the lexical-parser half is not covered",
         "no statement about running time: head_skip_spaces in the stamp side door loops forever in Rust for a format with an empty parse space (no shipped format has one); the model runs it on fuel",
     ],
+
+TB_LEX = TB_COMMON + [
+    "hand-written control skeleton of the lexical formatter / parser models (Model/LexFormatter.v, Model/LexParser.v) tied by the correspondence check; the three format tables, the char classes and the `slice_starts_with_str` length guard are regenerated (T2)",
+    "nar_dev_utils dictionaries (XFixMatchDict, PrefixMatchDictPair, SuffixMatchDictPair, BiFixMatchDictPair: sorted insertion, descending code-point iteration), starts_with_str (with its proper-prefix defect), char_slice_has_prefix/suffix, join_to, join_lest_multiple_separators, add_space_if_necessary_and_flush_buffer modelled from their source; the real iteration order of every dictionary is dumped through prefix_terms/suffix_terms and compared with the model's on every run",
+    "std: str::trim_start_matches / trim_end_matches / split for &str patterns, slice indexing panics, char::is_whitespace (the 25 White_Space code points, compared exhaustively with std on every run), char::is_alphanumeric (range table dumped from std, Gen/Unicode.v; a Section variable in the theorems)",
+]
+PROPS["C02"] = {
+    "props": ["Props/C02.v"],
+    "run": ["Run/LexRun.v"],
+    "tables": ["T2"],
+    "n_quick": 360,
+    "n_thorough": 6000,
+    "trusted_base": TB_LEX,
+    "assumptions": ["usize additions of borders do not overflow (inputs fit in memory)"],
+}
+# C05: parser half (lexprops::c05_parser_stream); a fold stream can be appended in lexprops::run_c05
+PROPS["C05"] = {
+    "props": ["Props/C05.v"],
+    "run": ["Run/LexRun.v"],
+    "tables": ["T2"],
+    "n_quick": 360,
+    "n_thorough": 6000,
+    "trusted_base": TB_LEX + [
+        "stack depth of the real recursive-descent parser is a runtime matter the model cannot exhibit (exercised to nesting depth 64 on the real code)",
+    ],
+    "assumptions": ["usize additions of borders do not overflow (inputs fit in memory)"],
 }
